@@ -100,20 +100,46 @@ func opLine(defs []def, acts []action) string {
 // ---- witnesses ---------------------------------------------------------------------------------------------------------
 
 var (
-	intW  = []int64{0, 1, 2, -1, 7}
-	strW  = []string{"", "x", "y", "ab"}
-	tyAll = []*ty{{k: "int"}, {k: "str"}, {k: "bool"}, {k: "any"}, {k: "opt", elt: &ty{k: "int"}}, {k: "opt", elt: &ty{k: "str"}},
-		{k: "opt", elt: &ty{k: "bool"}}, {k: "opt", elt: &ty{k: "any"}}, {k: "opt", elt: &ty{k: "opt", elt: &ty{k: "int"}}}}
+	intW   = []int64{0, 1, 2, -1, 7}
+	strW   = []string{"", "x", "y", "ab"}
+	floatW = []int64{0, 2, -5, 8} // quarters: 0.0 0.5 -1.25 2.0
+	tInt   = &ty{k: "int"}
+	tStr   = &ty{k: "str"}
+	tAny   = &ty{k: "any"}
+	tyOld  = []*ty{tInt, tStr, {k: "bool"}, tAny, {k: "opt", elt: tInt}, {k: "opt", elt: tStr},
+		{k: "opt", elt: &ty{k: "bool"}}, {k: "opt", elt: tAny}, {k: "opt", elt: &ty{k: "opt", elt: tInt}}}
+	// the wider alphabet: Float, Undef, NotUndef[T], Variant[A,B], Array[T]
+	tyNew = []*ty{{k: "float"}, {k: "undef"}, {k: "nu", elt: tInt}, {k: "nu", elt: tAny}, {k: "nu", elt: &ty{k: "opt", elt: tStr}},
+		{k: "var", elt: tInt, elt2: tStr}, {k: "var", elt: tInt, elt2: &ty{k: "undef"}}, {k: "var", elt: &ty{k: "nu", elt: tInt}, elt2: tStr},
+		{k: "arr", elt: tInt}, {k: "arr", elt: tAny}, {k: "arr", elt: &ty{k: "opt", elt: tInt}}, {k: "arr", elt: &ty{k: "nu", elt: tInt}},
+		{k: "opt", elt: &ty{k: "arr", elt: tInt}}, {k: "opt", elt: &ty{k: "float"}}, {k: "opt", elt: &ty{k: "nu", elt: tInt}},
+		{k: "nu", elt: &ty{k: "var", elt: tInt, elt2: &ty{k: "undef"}}}, {k: "var", elt: &ty{k: "arr", elt: tInt}, elt2: &ty{k: "float"}}}
+	tyAll = append(append([]*ty{}, tyOld...), tyNew...)
 )
 
 func anyVal(r *rand.Rand) val {
-	switch r.Intn(4) {
+	switch r.Intn(7) {
 	case 0:
 		return val{k: "i", i: intW[r.Intn(len(intW))]}
 	case 1:
 		return val{k: "s", s: strW[r.Intn(len(strW))]}
 	case 2:
 		return val{k: "b", b: r.Intn(2) == 0}
+	case 3:
+		return val{k: "f", i: floatW[r.Intn(len(floatW))]}
+	case 4:
+		v := val{k: "a", es: []val{}}
+		for n := r.Intn(3); n > 0; n-- {
+			switch r.Intn(4) {
+			case 0:
+				v.es = append(v.es, val{k: "u"})
+			case 1:
+				v.es = append(v.es, val{k: "s", s: strW[r.Intn(len(strW))]})
+			default:
+				v.es = append(v.es, val{k: "i", i: intW[r.Intn(len(intW))]})
+			}
+		}
+		return v
 	}
 	return val{k: "u"}
 }
@@ -129,11 +155,72 @@ func witness(r *rand.Rand, t *ty) val {
 		return val{k: "b", b: r.Intn(2) == 0}
 	case "any":
 		return anyVal(r)
+	case "float":
+		return val{k: "f", i: floatW[r.Intn(len(floatW))]}
+	case "undef":
+		return val{k: "u"}
+	case "nu":
+		for k := 0; k < 20; k++ {
+			if v := witness(r, t.elt); v.k != "u" {
+				return v
+			}
+		}
+		return val{k: "i", i: 1} // NotUndef[Undef]-like: no witness; the value is ill-typed on purpose
+	case "var":
+		if r.Intn(2) == 0 {
+			return witness(r, t.elt)
+		}
+		return witness(r, t.elt2)
+	case "arr":
+		v := val{k: "a", es: []val{}}
+		for n := r.Intn(3); n > 0; n-- {
+			v.es = append(v.es, witness(r, t.elt))
+		}
+		return v
 	}
 	if r.Intn(3) == 0 {
 		return val{k: "u"}
 	}
 	return witness(r, t.elt)
+}
+
+// ---- the type alphabet itself ---------------------------------------------------------------------------------------
+
+// alphabet: every type expression up to two constructors over the atoms, plus a few of depth three
+func alphabet() []*ty {
+	atoms := []*ty{tInt, tStr, tAny, {k: "undef"}, {k: "float"}}
+	d1 := []*ty{}
+	for _, a := range atoms {
+		d1 = append(d1, &ty{k: "opt", elt: a}, &ty{k: "nu", elt: a}, &ty{k: "arr", elt: a})
+	}
+	d1 = append(d1, &ty{k: "var", elt: tInt, elt2: tStr}, &ty{k: "var", elt: tInt, elt2: &ty{k: "undef"}},
+		&ty{k: "var", elt: tStr, elt2: &ty{k: "undef"}}, &ty{k: "var", elt: tAny, elt2: tInt})
+	out := append(append([]*ty{}, atoms...), d1...)
+	for _, x := range d1 {
+		out = append(out, &ty{k: "opt", elt: x}, &ty{k: "nu", elt: x}, &ty{k: "arr", elt: x})
+	}
+	return append(out, &ty{k: "var", elt: &ty{k: "nu", elt: tInt}, elt2: tStr}, &ty{k: "var", elt: &ty{k: "opt", elt: tInt}, elt2: tStr},
+		&ty{k: "var", elt: &ty{k: "arr", elt: tInt}, elt2: &ty{k: "undef"}}, &ty{k: "var", elt: &ty{k: "nu", elt: tInt}, elt2: &ty{k: "undef"}},
+		&ty{k: "nu", elt: &ty{k: "nu", elt: &ty{k: "nu", elt: tAny}}}, &ty{k: "opt", elt: &ty{k: "nu", elt: &ty{k: "opt", elt: tInt}}})
+}
+
+// genAlphabet: IsAssignable on every pair of the first 24 types (atoms and one constructor) and a sample of the rest (all
+// pairs in the thorough tier); IsInstance of every type on ten value shapes
+func genAlphabet(g *core.G) {
+	ts := alphabet()
+	for i, t := range ts {
+		for j, u := range ts {
+			if (i < 24 && j < 24) || g.Thorough() || g.Rng.Intn(10) == 0 {
+				g.Emit("asg " + t.sexp().String() + " " + u.sexp().String())
+			}
+		}
+	}
+	vals := []string{"u", "(i 1)", "(s x78)", "(f 2)", "(b t)", "(a)", "(a (i 1))", "(a u)", "(a (i 1) u)", "(a (a (i 1)))", "(a (s x78) (i 2))"}
+	for _, t := range ts {
+		for _, v := range vals {
+			g.Emit("tinst " + t.sexp().String() + " " + v)
+		}
+	}
 }
 
 // ---- definitions ----------------------------------------------------------------------------------------------------------
@@ -313,8 +400,8 @@ func genChain(r *rand.Rand) []def {
 				if dup {
 					continue
 				}
-				v := witness(r, tyAll[r.Intn(3)])
-				t := map[string]string{"i": "int", "s": "str", "b": "bool"}[v.k]
+				v := witness(r, []*ty{tInt, tStr, {k: "bool"}, {k: "float"}, {k: "undef"}}[r.Intn(5)])
+				t := map[string]string{"i": "int", "s": "str", "b": "bool", "f": "float", "u": "undef"}[v.k]
 				d.consts = append(d.consts, attr{name: name, ty: &ty{k: t}, kind: "c", dflt: &v})
 			}
 		}
@@ -802,6 +889,65 @@ func exhaustiveDeep(g *core.G) {
 	}
 }
 
+// every type of the alphabet sample as the type of an attribute `a` (required / with a default / given_or_derived / constant)
+// next to `b => {Integer, 1}`: constructions that give `a` positionally and by name — a witness, undef (for NotUndef[T] the
+// init Struct of the named constructor says Optional[T]: the two constructors part ways), and six fixed value shapes —, then
+// Get, init-hashes and Equals over all of them
+func exhaustiveTypes(g *core.G) {
+	shapes := []val{{k: "u"}, {k: "i", i: 1}, {k: "s", s: "x"}, {k: "f", i: 2}, {k: "a", es: []val{}}, {k: "a", es: []val{{k: "i", i: 1}, {k: "u"}}}}
+	for _, t := range tyAll {
+		for _, kind := range []string{"n", "nd", "g", "c"} {
+			a := attr{name: "a", ty: t, kind: kind}
+			if kind == "nd" || kind == "c" {
+				w := witness(g.Rng, t)
+				a.dflt = &w
+				if kind == "nd" {
+					a.kind = "n"
+				}
+			}
+			defs := []def{{parent: -1, attrs: []attr{a, {name: "b", ty: tInt, kind: "n", dflt: iv(1)}}, eqKind: "-", eit: "-"}}
+			s := mkSpec(defs)
+			var acts []action
+			settable := kind != "c"
+			give := func(v val) {
+				if settable {
+					acts = append(acts, action{op: "newpos", t: 0, vals: []val{v}}, action{op: "newnamed", t: 0, names: []string{"a"}, vals: []val{v}})
+				}
+			}
+			w1, w2 := witness(g.Rng, t), witness(g.Rng, t)
+			give(w1)
+			give(w2)
+			for _, v := range shapes {
+				give(v)
+			}
+			acts = append(acts, action{op: "newpos", t: 0}, action{op: "newnamed", t: 0})
+			if settable && len(s.pos[0]) == 2 {
+				acts = append(acts, action{op: "newpos", t: 0, vals: []val{w1, {k: "i", i: 1}}}, action{op: "newnamed", t: 0, names: []string{"b", "a"}, vals: []val{{k: "i", i: 5}, w1}})
+			}
+			n := len(acts)
+			for o := 0; o < n; o++ {
+				acts = append(acts, action{op: "get", o: o, name: "a"}, action{op: "inithash", o: o})
+			}
+			for o := 1; o < n; o++ {
+				acts = append(acts, action{op: "eq", o: 0, o2: o}, action{op: "eq", o: o, o2: o - 1})
+			}
+			g.Emit(opLine(defs, acts))
+		}
+	}
+	// overrides that narrow (or do not narrow) the type, over the sample: parent a: T, child a: U with override => true
+	for _, t := range tyAll {
+		for _, u := range tyAll {
+			if g.Thorough() || g.Rng.Intn(4) == 0 {
+				defs := []def{{parent: -1, attrs: []attr{{name: "a", ty: t, kind: "n"}}, eqKind: "-", eit: "-"},
+					{parent: 0, attrs: []attr{{name: "a", ty: u, kind: "n", override: true}}, eqKind: "-", eit: "-"}}
+				w := witness(g.Rng, u)
+				g.Emit(opLine(defs, []action{{op: "newpos", t: 1, vals: []val{w}}, {op: "newnamed", t: 1, names: []string{"a"}, vals: []val{w}},
+					{op: "get", o: 0, name: "a"}, {op: "eq", o: 0, o2: 1}, {op: "inst", t: 0, o: 0}, {op: "inithash", o: 1}}))
+			}
+		}
+	}
+}
+
 // ---- entry --------------------------------------------------------------------------------------------------------------------
 
 // attribute-less types (pcore treats a type without attributes whose ancestors have none either as an INTERFACE, matched
@@ -839,9 +985,11 @@ func genInterfaces(g *core.G) {
 }
 
 func gen(g *core.G) {
+	genAlphabet(g)
 	exhaustive(g)
 	exhaustive2(g)
 	exhaustiveDeep(g)
+	exhaustiveTypes(g)
 	genTParam(g)
 	genInterfaces(g)
 	genIface(g)
